@@ -106,6 +106,21 @@ def constructed(rng):
         p = rng.randrange(n_, 19)
         for sgn in (1, -1):
             out.append("%s %s %d" % (rng.choice(("round", "cround")), G.fD(sgn * c, p), p - n_))
+    # kept digits made of all-ones / empty / single-bit 32-bit limbs, inexact, every mode (requests are repeated per mode)
+    sg_ = G.sublimb_grid()
+    for q_ in sg_:
+        sh = rng.randrange(1, 25)
+        t_ = 10 ** sh
+        if q_ > M // t_:
+            sh = rng.randrange(1, max(2, len(str(M // q_)) - 1)) if q_ < M // 10 else 0
+            t_ = 10 ** sh
+        if sh == 0 or q_ > M // t_:
+            continue
+        c = q_ * t_ + rng.choice((1, t_ // 2, t_ - 1, rng.randrange(1, t_)))
+        if c > M:
+            continue
+        p = rng.randrange(0, 19)
+        out.append("%s %s %d" % (rng.choice(("round", "cround")), G.fD(c * rng.choice((1, -1)), p), p - sh))
     # kept digits with binary-structured limbs (limb sums that carry), every residue mod 5
     for sh in range(1, 25):
         for c in G.limb_quotient_values(rng, sh, 6):
